@@ -27,6 +27,14 @@ static bool same_text(const char* a, const char* b) {
     return a[i] == b[i];
 }
 static int S_calls, S_bad;
+/* With -DSORTED=<0|1> the kind of list is a *constant* of the instance: symex then never enters the
+ * other branch of lang_search (an assumption alone would not prune it, and the binary-search model
+ * unwound to the linear scan's bound costs 20 GB). */
+#ifdef SORTED
+#define IS_SORTED (SORTED != 0)
+#else
+#define IS_SORTED (G.sorted)
+#endif
 
 static int stub_cmp(const void* a, const void* b) {
     long j = (const char* const*)b - &L.words[0];
@@ -36,7 +44,7 @@ static int stub_cmp(const void* a, const void* b) {
     if (!same_text(*(const char* const*)a, KEY)) S_bad++;  /* the (whole) key handed through */
     if (j < 0 || j >= NENT) { S_bad++; return 0; }
 #endif
-    if (G.sorted) {
+    if (IS_SORTED) {
         if ((unsigned long)j < G.p) return 1;
         if ((unsigned long)j == G.p && G.has_zero) return 0;
         return -1;
@@ -66,12 +74,12 @@ void t2_search(void) {
      * LINEAR_PREFIX entries (the loop then exits within the unwinding bound) */
     VASSUME(G.has_zero && G.p < LINEAR_PREFIX);
 #endif
-    L.is_sorted = G.sorted;
+    L.is_sorted = IS_SORTED;
     /* the search must use the comparator it is given, whatever the other flags say */
     L.has_prefix = G.has_prefix; L.has_accents = G.has_accents; L.compose = G.compose;
     int r = __CPROVER_file_local_lang_c_lang_search(&L, KEY, stub_cmp);
     VASSERT(r == (G.has_zero ? (int)G.p : -1), "T2 search returns the unique matching index, or -1");
     VASSERT(S_bad == 0, "T2 comparator only ever sees the key and entries of the list");
-    if (G.sorted) VASSERT(S_calls <= 12, "T2 binary search needs at most 12 probes");
+    if (IS_SORTED) VASSERT(S_calls <= 12, "T2 binary search needs at most 12 probes");
     VEND();
 }
